@@ -8,7 +8,7 @@
      - every scalar format is one the import knows,
      - every reference names an entry of the set.
    The last three are the hypotheses of the C15 round-trip theorem. *)
-From Coq Require Import String List Arith NArith ZArith Bool Lia.
+From Coq Require Import String List Arith NArith ZArith Bool Lia Permutation.
 From J5V.lib Require Import Outcome.
 From J5V.model Require Import ReflectDesc ReflectSchema Reflect ReflectSpec Export.
 From J5V.proofs Require Import ReflectProofs ExportProofs.
@@ -53,12 +53,17 @@ Definition all_keys : list ref :=
 Definition exposed_jnames (m : msgd) : list str :=
   flat_map (fun o => match o with Oneof _ j false (Some true) _ => [j] | _ => [] end) (m_oneofs m).
 
-Definition wf_desc : Prop :=
+(* what the totality and the C15 guarantees need: enums non-empty, the "_"-joined keys distinct *)
+Definition wf_keys : Prop :=
   (forall e, In e (d_enums D) -> enum_nonempty e) /\
-  NoDup all_keys /\
-  (forall m, In m (d_msgs D) -> NoDup (map f_json (m_fields m) ++ exposed_jnames m)).
+  NoDup all_keys.
+(* what property-name uniqueness needs on top: JSON names of the fields and of the exposed oneofs of
+   a message distinct (protoc checks the fields among themselves, not against the oneof names) *)
+Definition json_ok : Prop :=
+  forall m, In m (d_msgs D) -> NoDup (map f_json (m_fields m) ++ exposed_jnames m).
+Definition wf_desc : Prop := wf_keys /\ json_ok.
 
-Hypothesis Hwf : wf_desc.
+Hypothesis Hwf : wf_keys.
 
 Lemma real_oneof_key_in m name j x d :
   In (Oneof name j false x d) (m_oneofs m) -> In (oneof_key m name) (real_oneof_keys m).
@@ -68,7 +73,7 @@ Qed.
 
 Lemma wf_desc_total : wf_total D.
 Proof.
-  destruct Hwf as (He & Hk & _). split; [exact He|].
+  destruct Hwf as (He & Hk). split; [exact He|].
   intros e m Hein Hmin. unfold all_keys in Hk.
   assert (H1 : In (enum_key e) (map enum_key (d_enums D))) by (apply in_map; exact Hein).
   split.
@@ -83,12 +88,12 @@ End Consistency.
 (* ---------------------------------------------------------------- the invariant of successful builds *)
 Section Inv.
 Variable D : desc.
-Hypothesis Hwf : wf_desc D.
+Hypothesis Hwf : wf_keys D.
 Let Hwt : wf_total D := wf_desc_total D Hwf.
 
 (* local to a root: distinct property names, importable formats *)
 Definition props_wf (ps : list prop) : Prop :=
-  NoDup (map p_json ps) /\ forallb (fun p => field_importable (p_schema p)) ps = true.
+  (json_ok D -> NoDup (map p_json ps)) /\ forallb (fun p => field_importable (p_schema p)) ps = true.
 Definition root_wf (r : root) : Prop := props_wf (root_props r).
 Definition refs_keyed (st : sset) (rs : list ref) : Prop := forall k, In k rs -> has_key st k = true.
 
@@ -133,7 +138,7 @@ Lemma InvS_cons_enum st e r :
 Proof.
   intros (H1 & H2 & H3) Hl (a & b & c & d & f & ->). split; [apply Inv_cons_enum; eauto 10|]. split.
   - intros k' r Hlk. rewrite lookup_cons in Hlk. destruct (ref_eqb (enum_key e) k') eqn:E.
-    + inversion Hlk; subst r. split; [split; [constructor|reflexivity]|intros k2 []].
+    + inversion Hlk; subst r. split; [split; [intros _; constructor|reflexivity]|intros k2 []].
     + destruct (H2 k' r Hlk) as [Hw Hr]. split; [exact Hw|]. eapply refs_keyed_ext; [apply ext_cons|exact Hr].
   - cbn [map fst]. constructor; [apply lookup_None_notin; exact Hl|exact H3].
 Qed.
@@ -359,11 +364,11 @@ End Inv.
 (* ---------------------------------------------------------------- the field loop *)
 Section Loop.
 Variable D : desc.
-Hypothesis Hwf : wf_desc D.
+Hypothesis Hwf : wf_keys D.
 Let Hwt : wf_total D := wf_desc_total D Hwf.
 Variable n : nat.
 Variable rec : sset -> msgd -> outcome (sset * root).
-Hypothesis Hrec : forall st m, In m (d_msgs D) -> InvS D st -> unvisited D st < n -> Ps D fst Qr st (rec st m).
+Hypothesis Hrec : forall st m, In m (d_msgs D) -> InvS D st -> unvisited D st < n -> Ps D fst (Qr D) st (rec st m).
 
 Definition props_refs (ps : list prop) : list ref := flat_map (fun p => field_refs (p_schema p)) ps.
 Definition props_importable (ps : list prop) : bool := forallb (fun p => field_importable (p_schema p)) ps.
@@ -557,7 +562,7 @@ End Names.
 (* ---------------------------------------------------------------- messageProperties, the root, the recursion *)
 Section Build.
 Variable D : desc.
-Hypothesis Hwf : wf_desc D.
+Hypothesis Hwf : wf_keys D.
 Let Hwt : wf_total D := wf_desc_total D Hwf.
 
 Definition exposed_of (os : list oneofd) : list str :=
@@ -583,7 +588,7 @@ Proof.
     assert (HI1 : InvS D st1).
     { apply InvS_cons; [exact HI|exact El| |].
       - intros e He. eapply (oneof_key_apart D Hwt); eauto. apply Hsub. left. reflexivity.
-      - split; [split; [constructor|reflexivity]|intros k2 []]. }
+      - split; [split; [intros _; constructor|reflexivity]|intros k2 []]. }
     pose proof (IH (N.succ idx) st1 Hr HI1) as H.
     destruct (register_oneofs m st1 (N.succ idx) r) as [[st2 exs]|]; cbn [rbind]; [|exact I].
     destruct H as (H1 & H2 & H3 & H4 & H5 & H6).
@@ -598,7 +603,7 @@ Proof.
 Qed.
 
 Lemma finish_oneofs_ps m : In m (d_msgs D) -> forall exs st,
-  exs_named m exs -> Forall (ex_wf st) exs -> Forall (fun e => NoDup (map p_json (ex_props e))) exs ->
+  exs_named m exs -> Forall (ex_wf st) exs -> Forall (fun e => json_ok D -> NoDup (map p_json (ex_props e))) exs ->
   InvS D st -> InvS D (finish_oneofs st exs) /\ ext st (finish_oneofs st exs) /\ noplace st (finish_oneofs st exs).
 Proof.
   intros Hm. unfold finish_oneofs. induction exs as [|e r IH]; intros st Hnm Hex Hnd HI; cbn [fold_left].
@@ -622,9 +627,9 @@ Qed.
 Section Level3.
 Variable n : nat.
 Variable rec : sset -> msgd -> outcome (sset * root).
-Hypothesis Hrec : forall st m, In m (d_msgs D) -> InvS D st -> unvisited D st < n -> Ps D fst Qr st (rec st m).
+Hypothesis Hrec : forall st m, In m (d_msgs D) -> InvS D st -> unvisited D st < n -> Ps D fst (Qr D) st (rec st m).
 
-Definition Qm (x : sset * list prop) : Prop := props_wf (snd x) /\ refs_keyed (fst x) (props_refs (snd x)).
+Definition Qm (x : sset * list prop) : Prop := props_wf D (snd x) /\ refs_keyed (fst x) (props_refs (snd x)).
 
 Lemma exposed_of_jnames m : exposed_of (m_oneofs m) = exposed_jnames m.
 Proof. reflexivity. Qed.
@@ -643,34 +648,37 @@ Proof.
   unfold Ps, Ql, pr3 in Hf. cbn [fst snd] in Hf. destruct Hf as (HI2 & He2 & Hn2 & Hpi & Hpr & Hex2).
   destruct (existsb ex_pending exs2) eqn:Epend; [exact I|].
   assert (Hnamed2 : exs_named m exs2) by (eapply fields_loop_named; eauto).
-  (* names *)
-  pose proof (proj2 (proj2 Hwf) m Hm) as Hjson.
-  assert (Hnd0 : NoDup (map f_json (m_fields m) ++ pn exs)) by (rewrite Hpn, exposed_of_jnames; exact Hjson).
-  assert (Hmem0 : members_ok (map f_json (m_fields m)) exs).
-  { unfold members_ok. eapply Forall_impl; [|exact Hempty]. intros e He. cbn beta in He. rewrite He. cbn [map app].
-    eapply NoDup_app_l; eauto. }
-  destruct (fields_loop_names D rec m (m_fields m) st1 exs st2 exs2 ps Ef Hnd0 Hmem0) as (N1 & _ & N3).
-  assert (Hpn2 : pn exs2 = []).
-  { unfold pn. assert (filter ex_pending exs2 = []) as ->; [|reflexivity].
-    clear -Epend. induction exs2 as [|e r IH]; [reflexivity|]. cbn [existsb filter] in *.
-    apply orb_false_iff in Epend as [E1 E2]. rewrite E1. apply IH. exact E2. }
-  rewrite Hpn2, app_nil_r in N1.
+  (* names, when the JSON names of the message are distinct *)
+  assert (Hnames : json_ok D -> NoDup (map p_json ps) /\ Forall (fun e => NoDup (map p_json (ex_props e))) exs2).
+  { intros Hj. pose proof (Hj m Hm) as Hjson.
+    assert (Hnd0 : NoDup (map f_json (m_fields m) ++ pn exs)) by (rewrite Hpn, exposed_of_jnames; exact Hjson).
+    assert (Hmem0 : members_ok (map f_json (m_fields m)) exs).
+    { unfold members_ok. eapply Forall_impl; [|exact Hempty]. intros e He. cbn beta in He. rewrite He. cbn [map app].
+      eapply NoDup_app_l; eauto. }
+    destruct (fields_loop_names D rec m (m_fields m) st1 exs st2 exs2 ps Ef Hnd0 Hmem0) as (N1 & _ & N3).
+    assert (Hpn2 : pn exs2 = []).
+    { unfold pn. assert (filter ex_pending exs2 = []) as ->; [|reflexivity].
+      clear -Epend. induction exs2 as [|e r IH]; [reflexivity|]. cbn [existsb filter] in *.
+      apply orb_false_iff in Epend as [E1 E2]. rewrite E1. apply IH. exact E2. }
+    rewrite Hpn2, app_nil_r in N1. split; [exact N1|exact N3]. }
+  assert (N3 : Forall (fun e => json_ok D -> NoDup (map p_json (ex_props e))) exs2).
+  { apply Forall_forall. intros e He Hj. destruct (Hnames Hj) as [_ F]. exact (proj1 (Forall_forall _ _) F e He). }
   destruct (finish_oneofs_ps m Hm exs2 st2 Hnamed2 Hex2 N3 HI2) as (F1 & F2 & F3).
   unfold Ps, Qm. cbn [fst snd].
   split; [exact F1|]. split; [eapply ext_trans; [exact He1|]; eapply ext_trans; [exact He2|exact F2]|].
   split; [eapply noplace_trans; [exact Hn1|]; eapply noplace_trans; [exact Hn2|exact F3]|].
-  split; [split; [exact N1|exact Hpi]|]. eapply refs_keyed_ext; [exact F2|exact Hpr].
+  split; [split; [intros Hj; exact (proj1 (Hnames Hj))|exact Hpi]|]. eapply refs_keyed_ext; [exact F2|exact Hpr].
 Qed.
 
 Lemma build_root_ps st m :
-  In m (d_msgs D) -> InvS D st -> unvisited D st <= n -> Ps D fst Qr st (build_root D rec st m).
+  In m (d_msgs D) -> InvS D st -> unvisited D st <= n -> Ps D fst (Qr D) st (build_root D rec st m).
 Proof.
   intros Hm HI HU. unfold build_root.
   eapply Ps_bind; [apply message_properties_ps; assumption|].
   intros [st1 ps] HI1 He1 Hn1 [Hw Hr]. cbn [fst snd] in *.
   assert (Hfin : forall r, root_props r = ps ->
              match Ok (st1, r) : outcome (sset * root) with
-             | Ok y => InvS D (fst y) /\ ext st1 (fst y) /\ noplace st1 (fst y) /\ Qr y
+             | Ok y => InvS D (fst y) /\ ext st1 (fst y) /\ noplace st1 (fst y) /\ Qr D y
              | Err _ => True
              | _ => False
              end).
@@ -678,13 +686,14 @@ Proof.
     unfold Qr, root_wf, root_refs. cbn [fst snd]. rewrite Hp. split; [exact Hw|exact Hr]. }
   destruct (negb (props_valid ps)); [exact I|].
   destruct (is_oneof_wrapper m); [apply Hfin; reflexivity|].
-  destruct (flatten_cycle st1 (msg_key m) ps); [exact I|].
+  pose proof (flatten_cycle_fuel st1 (msg_key m) ps) as Hfc.
+  destruct (flatten_cycle st1 (msg_key m) ps) as [[|]|]; [exact I| |contradiction].
   destruct (find_psm D m) as [ent|cls]; cbn [lift obind]; [apply Hfin; reflexivity|exact I].
 Qed.
 End Level3.
 
 Lemma build_msg_ps : forall fuel st m,
-  In m (d_msgs D) -> InvS D st -> unvisited D st < fuel -> Ps D fst Qr st (build_msg D fuel st m).
+  In m (d_msgs D) -> InvS D st -> unvisited D st < fuel -> Ps D fst (Qr D) st (build_msg D fuel st m).
 Proof.
   induction fuel as [|fuel IH]; intros st m Hm HI HU; [lia|].
   cbn [build_msg]. apply build_root_ps with (n := fuel); [exact IH|assumption|assumption|lia].
@@ -765,11 +774,11 @@ Qed.
 Theorem reflect_ok_guarantees fs S :
   reflect D fs = Ok S ->
   keys_distinct S = true /\ set_importable S = true /\ set_closed S = true /\
-  (forall k r, lookup S k = Some (Linked r) -> names_unique_b (root_props r) = true) /\
+  (json_ok D -> forall k r, lookup S k = Some (Linked r) -> names_unique_b (root_props r) = true) /\
   (forall k, lookup S k <> Some Placeholder).
 Proof.
   intros HS. pose proof (reflect_final fs) as H. rewrite HS in H. destruct H as [(H1 & H2 & H3) Hnp].
-  assert (Hlinked : forall k e, In (k, e) S -> exists r, e = Linked r /\ root_wf r /\ refs_keyed S (root_refs r)).
+  assert (Hlinked : forall k e, In (k, e) S -> exists r, e = Linked r /\ root_wf D r /\ refs_keyed S (root_refs r)).
   { intros k e Hin. pose proof (lookup_In S H3 k e Hin) as Hl. destruct e as [|r]; [exfalso; apply (Hnp k Hl)|].
     exists r. split; [reflexivity|]. apply (H2 k r Hl). }
   split; [apply keys_distinct_NoDup; exact H3|]. split; [|split; [|split; [|exact Hnp]]].
@@ -778,7 +787,7 @@ Proof.
     destruct (Hlinked k e Hin) as (r & -> & _ & Hr). cbn [snd]. apply forallb_forall. intros k2 Hk2.
     specialize (Hr k2 Hk2). unfold has_key in Hr. destruct (lookup S k2) as [[|r2]|] eqn:E; try discriminate; [|reflexivity].
     exfalso. apply (Hnp k2 E).
-  - intros k r Hl. destruct (H2 k r Hl) as [[Hn _] _]. apply nodup_str_NoDup. exact Hn.
+  - intros Hj k r Hl. destruct (H2 k r Hl) as [[Hn _] _]. apply nodup_str_NoDup. exact (Hn Hj).
 Qed.
 End Build.
 
@@ -816,37 +825,39 @@ Proof.
       { intros [H|H]; [inversion H; subst; left; reflexivity|right; apply I3; exact H]. }
 Qed.
 
-Theorem reflect_export_import_roundtrip D fs S :
-  wf_desc D -> reflect D fs = Ok S ->
-  exists X, export_set S = Ok X /\
-  exists S', import_api X = ROk S' /\
-    (forall k x, In (k, x) X -> exists r', lookup S' k = Some (Linked r') /\ export_root r' = x) /\
-    (forall k, ~ In k (map fst X) -> lookup S' k = None) /\
-    refs_resolved S' = true.
+(* the entries of a reflected set satisfy what the round-trip theorems assume *)
+Lemma reflect_entries_ok D fs S :
+  wf_keys D -> reflect D fs = Ok S ->
+  export_set S = Ok (export_entries (linked_entries S)) /\
+  NoDup (map fst (linked_entries S)) /\ all_importable (linked_entries S) /\ closed (linked_entries S).
 Proof.
   intros Hwf HS.
   destruct (reflect_ok_guarantees D Hwf fs S HS) as (Hkd & Himp & Hcl & _ & Hnp).
   pose proof (reflect_final D Hwf fs) as Hfin. rewrite HS in Hfin. destruct Hfin as [(_ & _ & Hnd) _].
   destruct (all_linked_entries S Hnp Hnd) as (E1 & E2 & E3).
   set (L := linked_entries S) in *.
-  assert (HndL : NoDup (map fst L)) by (rewrite E1; exact Hnd).
-  assert (HimpL : all_importable L).
-  { intros k r Hin. apply E3 in Hin. unfold set_importable in Himp.
-    apply (proj1 (forallb_forall _ _) Himp (k, Linked r) Hin). }
-  assert (HclL : closed L).
-  { intros k Hk. unfold entry_refs in Hk. apply in_flat_map in Hk as ([k0 r0] & Hin0 & Hr). cbn [snd] in Hr.
+  split; [exact E2|]. split; [rewrite E1; exact Hnd|]. split.
+  - intros k r Hin. apply E3 in Hin. unfold set_importable in Himp.
+    apply (proj1 (forallb_forall _ _) Himp (k, Linked r) Hin).
+  - intros k Hk. unfold entry_refs in Hk. apply in_flat_map in Hk as ([k0 r0] & Hin0 & Hr). cbn [snd] in Hr.
     apply E3 in Hin0. unfold set_closed, refs_resolved in Hcl.
     pose proof (proj1 (forallb_forall _ _) Hcl (k0, Linked r0) Hin0) as H. cbn [snd] in H.
     pose proof (proj1 (forallb_forall _ _) H k Hr) as H2.
     cbn beta in H2. destruct (lookup S k) as [[|r2]|] eqn:El; try discriminate H2.
-    rewrite E1. apply lookup_Some_In in El. apply (in_map fst) in El. exact El. }
-  destruct (export_import_roundtrip L HndL HimpL HclL) as (S' & Hi & Hin & Hout & Hres).
-  exists (export_entries L). split; [exact E2|]. exists S'. split; [exact Hi|]. split; [|split; [|exact Hres]].
-  - intros k x Hx. unfold export_entries in Hx. apply in_map_iff in Hx as ([k0 r0] & Hf & H0). cbn [fst snd] in Hf.
-    inversion Hf; subst k x. destruct (Hin k0 r0 H0) as (r' & Hl & He). exists r'. split; assumption.
-  - assert (Hk' : map fst (export_entries L) = map fst L)
-      by (unfold export_entries; rewrite map_map; apply map_ext; intros [a b]; reflexivity).
-    intros k Hk. apply Hout. rewrite <- Hk'. exact Hk.
+    rewrite E1. apply lookup_Some_In in El. apply (in_map fst) in El. exact El.
+Qed.
+
+Theorem reflect_export_import_roundtrip D fs S :
+  wf_keys D -> reflect D fs = Ok S ->
+  exists X, export_set S = Ok X /\
+  exists S', import_api X = ROk S' /\
+    (forall k x, In (k, x) X -> exists r', lookup S' k = Some (Linked r') /\ export_root r' = x) /\
+    (forall k, ~ In k (map fst X) -> lookup S' k = None) /\
+    refs_resolved S' = true.
+Proof.
+  intros Hwf HS. destruct (reflect_entries_ok D fs S Hwf HS) as (E2 & HndL & HimpL & HclL).
+  exists (export_entries (linked_entries S)). split; [exact E2|].
+  apply (export_import_roundtrip_perm (linked_entries S) _ (Permutation_refl _) HndL HimpL HclL).
 Qed.
 
 (* ---------------------------------------------------------------- a decision procedure for wf_desc *)
@@ -869,7 +880,7 @@ Definition wf_desc_b (D : desc) : bool :=
 Lemma wf_desc_b_sound D : wf_desc_b D = true -> wf_desc D.
 Proof.
   unfold wf_desc_b. intros H. apply andb_prop in H as [H H3]. apply andb_prop in H as [H1 H2].
-  split; [|split].
+  split; [split|].
   - intros e He. pose proof (proj1 (forallb_forall _ _) H1 e He) as Hx. destruct e as [a b c values d f].
     cbn [enum_nonempty]. destruct values; [discriminate|intros Hc; discriminate].
   - apply nodup_refs_NoDup. exact H2.
